@@ -66,6 +66,11 @@ def check(tier):
         collect_logs("E2 space %s%s under ASan/UBSan/LSan" % (sp, "/" + sol if sol else ""))
         results.append(res)
         states += res["summary"]["states"]; trans += res["summary"]["transitions"]
+    # all registry operation sequences up to depth 5 (nothing merged) under the sanitizers: a use after free needs no wrong answer to be seen
+    res = p_e2.run_space(e2, "c12s", "quick", os.path.join(b.dir, "c12s_san.out"), env=env_noleak, deadline=p_e2.DEADLINE[tier] / 2, extra=["--seqdepth", "5"])
+    p_e2.add_violations(rep, res, "C19", build="asan", only=lambda m: "terminated" in m or "abnormally" in m or "wait status" in m or "process ended" in m)
+    collect_logs("all registry sequences up to depth 5 under ASan/UBSan")
+    results.append(res); states += res["summary"]["states"]; trans += res["summary"]["transitions"]
     if True:
         # misuse continued *through* the failure: exception build under ASan/UBSan (a failed call that left a dangling selection or a
         # half-destroyed instance is used again by the following transitions)
